@@ -5,8 +5,11 @@ p=sys.argv[1]
 data=sys.stdin.read()
 old,new=data.split('\n====\n',1)
 if new.endswith('\n') and not old.endswith('\n'): new=new[:-1]
-s=open(p).read()
+s=open(p,newline='').read()
+crlf='\r\n' in s
+if crlf:
+    old=old.replace('\n','\r\n'); new=new.replace('\n','\r\n')
 n=s.count(old)
 if n!=1:
     print("match count",n); sys.exit(1)
-open(p,'w').write(s.replace(old,new))
+open(p,'w',newline='').write(s.replace(old,new))
